@@ -77,6 +77,10 @@ HashOne(e, i) ==
   IN IF ~IsValue(o) THEN Mismatch(l, "hash-outcome", <<e.case, i>>, "value", o.outcome)
      ELSE /\ Expect(l, "path-hash", <<e.case, i>>, PathHash(s), o.v.partial)
           /\ Expect(l, "shader-key-hash", <<e.case, i>>, CrcZeroInit(s), o.v.shcrc)
+          \* the key an index file of the first kind computes for the path (asked of a real, empty index file)
+          /\ IF HasSlash(s) /\ "split" \in DOMAIN o.v
+             THEN Expect(l, "index-key", <<e.case, i>>, SplitHash(s), [name |-> o.v.split[1], path |-> o.v.split[2]])
+             ELSE TRUE
 Hash(e) == \A i \in 1..Len(e.ss) : HashOne(e, i)
 
 Init == l = 1
